@@ -11,10 +11,11 @@ COMMON_TRUST = [
 
 CHECKS = {
     'C10': {
-        'verus_units': ['follow'],
+        'verus_units': ['follow', 'executor'],
+        'clause_prefixes': ['c10', 'next.', 'new.', 'lemma.'],
         'technique': 'contract-based deductive verification (Verus) of the extracted FollowFileIterator, reader modelled by a nondeterministic callee contract, history lemma over the contract',
         'claim': 'Proof for all chunkings/poll placements/buffer sizes of the per-call contract of FollowFileIterator::next (Some(s) = exactly the old partial line plus the bytes consumed up to and including the first newline, verbatim; None = nothing lost) and of the start position chosen by FollowFileExecutor::new; lemmas lift it to exactly-once, in-order delivery over any history. Partial correctness; the reader is a specified stand-in.',
-        'note': 'Trusted: std BufRead::read_until / Seek / from_utf8_lossy contracts on the VReader stand-in, extraction rules E1-E5, Verus+Z3. Not covered: the consuming for-loop in FollowFileExecutor::execute, OS file semantics (truncation, rotation).',
+        'note': 'Trusted: std BufRead::read_until / Seek / from_utf8_lossy contracts on the VReader stand-in, extraction rules E1-E5, Verus+Z3. FollowFileExecutor::execute (the consuming loop) is proved in unit executor to hand every delivered line to the query once, in order, until LIMIT / error / interrupt. Not covered: OS file semantics (truncation, rotation).',
         'level': 'proof',
         'explanation': 'FollowFileIterator::new/next and FollowFileExecutor::new are extracted from /repo and verified by Verus against a '
                        'reader stand-in whose read_until may return any chunk (all writer chunkings, poll placements and buffer sizes are '
@@ -103,7 +104,7 @@ CHECKS['C07'] = {
     'level': 'proof',
     'explanation': 'update_limit is verified verbatim; execute is verified verbatim against callee contracts; lemma_limit_prefix turns the per-call contract into "first n rows of the unlimited result".',
     'trusted': COMMON_TRUST + ['join branch of execute_select/execute_aggregate* replaced by an assumed stub (rule E3b) because Verus rejects FnMut closures that capture &mut state'],
-    'unproved': ['join branches (execute_join closures)', 'FollowFileExecutor::execute loop'],
+    'unproved': ['join branches (execute_join closures)'],
 }
 CHECKS['C06'] = {
     'verus_units': ['engine', 'extract'],
@@ -190,7 +191,7 @@ CHECKS['C19'] = {
     'clause_prefixes': ['c19'],
     'technique': 'contract-based deductive verification (Verus) of FileExecutor::execute with the running flag as a specified stand-in; degenerate schedules only',
     'claim': 'Proof for the two degenerate schedules (flag cleared before the run / never cleared): with the flag cleared no further line reaches the query, no error is reported, and an aggregate statement still prints the table of exactly the lines consumed (one result call); with the flag set the run is the uninterrupted one. A flip BETWEEN two loads is not modelled (load(&self) cannot change in Verus without atomics in the source), so "every point at which the flag can be cleared" is not decided.',
-    'note': 'Trusted: AtomicBool::load returns the flag value; the flag is constant during the call (interior mutability is invisible). This catches a check that is removed, inverted or moved behind the consuming call. JoinedTableData::execute (every 10th line) and FollowFileExecutor::execute are not under contract.',
+    'note': 'Trusted: AtomicBool::load returns the flag value; the flag is constant during the call (interior mutability is invisible). This catches a check that is removed, inverted or moved behind the consuming call. FollowFileExecutor::execute is covered in the same way (flag constant). JoinedTableData::execute (every 10th line) is not under contract.',
     'level': 'proof',
     'explanation': 'Rides on the executor unit; lemma_interrupted_run_consumes_nothing.',
     'trusted': COMMON_TRUST + ['flag constant during one call'],
